@@ -34,14 +34,20 @@ Shapes ==
     S4 |-> [fields |-> <<[n |-> "Base", emb |-> "Base"], [n |-> "X", v |-> VI(55)]>>, methods |-> {}],       \* outer X shadows Base.X
     S5 |-> [fields |-> <<[n |-> "S3", emb |-> "S3"], [n |-> "Q", v |-> VI(66)]>>, methods |-> {}],           \* X, W promoted from depth 2, Z depth 1
     S6 |-> [fields |-> <<[n |-> "X", v |-> VI(77)], [n |-> "hidden", v |-> VI(99)]>>,
-            methods |-> {[n |-> "Name", v |-> VS(<<109>>), ptr |-> FALSE], [n |-> "PName", v |-> VS(<<112>>), ptr |-> TRUE]}] ]
-ShapeNames == {"S1", "S2", "S3", "S4", "S5", "S6"}
+            \* AName (pointer receiver) sorts before Name in the method set of *S6 but is absent from that of S6;
+            \* the Go type also has ARename(string), which is not a zero-argument method and therefore no member
+            methods |-> {[n |-> "Name", v |-> VS(<<109>>), ptr |-> FALSE], [n |-> "PName", v |-> VS(<<112>>), ptr |-> TRUE],
+                         [n |-> "AName", v |-> VS(<<97>>), ptr |-> TRUE]}],
+    \* embedded by pointer: the promoted fields exist only while the embedded pointer is set (object flag embnil)
+    S7 |-> [fields |-> <<[n |-> "Base", emb |-> "Base"], [n |-> "K", v |-> VI(88)]>>, methods |-> {}] ]
+ShapeNames == {"S1", "S2", "S3", "S4", "S5", "S6", "S7"}
 MapKinds == {"any", "mss", "msi"}
 \* objects: a struct value, a pointer to it, or a map of one of three Go map types
-Objects == {[k |-> "struct", sh |-> sn, ptr |-> p] : sn \in ShapeNames, p \in BOOLEAN}
+Objects == {[k |-> "struct", sh |-> sn, ptr |-> p, embnil |-> FALSE] : sn \in ShapeNames, p \in BOOLEAN}
+           \cup {[k |-> "struct", sh |-> "S7", ptr |-> p, embnil |-> TRUE] : p \in BOOLEAN}
            \cup {[k |-> "map", g |-> g] : g \in MapKinds}
 MapVal(g, n) == CASE n = "X" -> (IF g = "mss" THEN VS(<<120>>) ELSE VI(8)) [] n = "Y" -> (IF g = "mss" THEN VS(<<121>>) ELSE VI(9)) [] OTHER -> Null
-AttrNames == {"X", "Y", "Z", "W", "Q", "Name", "PName", "hidden", "nosuch", "x", "name"} \cap NameSet    \* names are case-sensitive
+AttrNames == {"X", "Y", "Z", "W", "Q", "K", "Name", "PName", "AName", "ARename", "hidden", "nosuch", "x", "name"} \cap NameSet    \* names are case-sensitive
 
 IsExported(n) == n \notin {"hidden"}
 
@@ -68,8 +74,10 @@ FieldAt(sh, path) ==
     ELSE LET f == fs[path[1]] IN
          IF Len(path) = 1 THEN (IF "v" \in DOMAIN f THEN (IF IsExported(f.n) THEN f.v ELSE Null) ELSE [t |-> "embedded", sh |-> f.emb])
          ELSE IF "emb" \in DOMAIN f THEN FieldAt(f.emb, Tail(path)) ELSE Null
+ThroughNilEmbedded(obj, path) == obj.embnil /\ Len(path) > 1
 ApplyRes(res, obj) ==
-    CASE res.kind = "field" -> FieldAt(obj.sh, IF FirstIndexOnly THEN <<res.path[1]>> ELSE res.path)
+    CASE res.kind = "field" -> IF ThroughNilEmbedded(obj, res.path) THEN Null
+                               ELSE FieldAt(obj.sh, IF FirstIndexOnly THEN <<res.path[1]>> ELSE res.path)
       [] res.kind = "method" ->
            LET ms == {m \in Shapes[obj.sh].methods : m.n = res.n} IN
            IF ms = {} THEN Null
@@ -80,7 +88,7 @@ ApplyRes(res, obj) ==
 Member(obj, n) ==
     IF obj.k = "map" THEN MapVal(obj.g, n)
     ELSE LET res == Resolve(obj.sh, n) IN
-         CASE res.kind = "field" -> FieldAt(obj.sh, res.path)
+         CASE res.kind = "field" -> IF ThroughNilEmbedded(obj, res.path) THEN Null ELSE FieldAt(obj.sh, res.path)
            [] res.kind = "method" -> LET m == CHOOSE x \in Shapes[obj.sh].methods : x.n = n IN
                                      IF m.ptr /\ ~obj.ptr THEN [t |-> "ptrmethod-on-value"] ELSE m.v
            [] OTHER -> Null
@@ -91,7 +99,6 @@ Determined(obj, n) == Member(obj, n).t \in {"null", "int", "str"}
 \* ---- the memoised lookup ---------------------------------------------------------------------------
 KeyOf(obj, n) == IF KeyWithoutType THEN [sh |-> "*", n |-> n] ELSE [sh |-> obj.sh, n |-> n]
 DoLookup(obj, n) ==
-    /\ Determined(obj, n)
     /\ IF obj.k = "map"
        THEN /\ hist' = Append(hist, [obj |-> obj, n |-> n, got |-> MapVal(obj.g, n), evicted |-> 0])
             /\ UNCHANGED memo
@@ -109,13 +116,15 @@ Init == memo = [k \in {} |-> 0] /\ hist = <<>>
 Next == Len(hist) < MaxLen /\ \E obj \in Objects : \E n \in AttrNames : DoLookup(obj, n)
 Spec == Init /\ [][Next]_<<memo, hist>>
 
-CacheUnobservable == \A i \in 1..Len(hist) : hist[i].got = Member(hist[i].obj, hist[i].n)
+\* (lookups whose meaning is not determined are made too -- they go through the memo like any other -- but not judged)
+CacheUnobservable == \A i \in 1..Len(hist) : Determined(hist[i].obj, hist[i].n) => hist[i].got = Member(hist[i].obj, hist[i].n)
 Bounded == Cardinality(DOMAIN memo) <= Cap + 1
 
 \* ---- emission: complete histories with the value every lookup must print ------------------------------
 View == hist            \* which victims were chosen is not observable: one history per lookup sequence
-Complete == Len(hist) = MaxLen
+Complete == Len(hist) = MaxLen /\ Determined(hist[MaxLen].obj, hist[MaxLen].n)
 Emit == Complete => PrintT(ToJson([prop |-> "C20", key |-> ToJson([i \in 1..Len(hist) |-> [obj |-> hist[i].obj, n |-> hist[i].n]]),
                                    tags |-> {"obj:" \o hist[i].obj.k : i \in 1..Len(hist)}, cap |-> Cap,
-                                   ops |-> [i \in 1..Len(hist) |-> [obj |-> hist[i].obj, n |-> hist[i].n, want |-> TextOf(Member(hist[i].obj, hist[i].n))]]]))
+                                   ops |-> [i \in 1..Len(hist) |-> [obj |-> hist[i].obj, n |-> hist[i].n, any |-> ~Determined(hist[i].obj, hist[i].n),
+                                                                   want |-> IF Determined(hist[i].obj, hist[i].n) THEN TextOf(Member(hist[i].obj, hist[i].n)) ELSE <<>>]]]))
 =============================================================================
